@@ -1,6 +1,7 @@
 package main
 
 import (
+	"runtime/debug"
 	"crypto/sha256"
 	"encoding/hex"
 	"flag"
@@ -54,6 +55,9 @@ func loadEngine(repo string) (*Engine, error) {
 }
 
 func main() {
+	// thousands of path states are alive at once while a large function is verified: trade some CPU for a smaller heap
+	debug.SetGCPercent(40)
+	debug.SetMemoryLimit(6 << 30)
 	if pf := os.Getenv("ROSVC_PROF"); pf != "" {
 		f, _ := os.Create(pf)
 		pprof.StartCPUProfile(f)
@@ -63,6 +67,14 @@ func main() {
 			pprof.StopCPUProfile()
 			f.Close()
 			os.Exit(3)
+		}()
+	}
+	if mp := os.Getenv("ROSVC_MEMPROF"); mp != "" {
+		go func() {
+			time.Sleep(70 * time.Second)
+			f, _ := os.Create(mp)
+			pprof.WriteHeapProfile(f)
+			f.Close()
 		}()
 	}
 	if len(os.Args) < 2 {
